@@ -8,14 +8,14 @@ from .. import lib, lib2
 GUARD = r'<parking_lot::lock_api::MutexGuard<.*> as Deref(?:Mut)?>::deref(?:_mut)?'
 
 
-def o11_2_db_open(mir, tier):
+def o11_2_db_open(mir, tier, variant='cleanup'):
     """Every step (directory creation, compaction worker, lock file, recover, new WAL, log_and_apply) succeeds or fails (free);
     recovery reports a reusable WAL or none, and whether a new manifest snapshot is needed (free).  Reference: open succeeds iff
     every executed step does; a WAL is created iff recovery left none, and is installed before the manifest edit; the manifest
     edit is logged iff recovery asked for it; obsolete files are removed exactly once on EVERY successful open, after recovery
     and the manifest edit; compaction is scheduled iff needed."""
     fn = mir.method('DB', 'open')
-    res = Result('O11.2 DB::open step order and clean-up', [fn.path], 'each step succeeds or fails (free); recovered WAL present/absent, snapshot needed or not, compaction needed or not (free)')
+    res = Result('O11.2 DB::open step order and clean-up' if variant == 'cleanup' else 'O17.1 DB::open takes the lock before it touches the database', [fn.path], 'each step succeeds or fails (free); recovered WAL present/absent, snapshot needed or not, compaction needed or not (free)')
     t0 = time.time()
     S = lib2.install(lib.std_summaries()); P = S['$patterns']
     P[GUARD] = lib.ptr_deref
@@ -62,7 +62,21 @@ def o11_2_db_open(mir, tier):
     P[r'<RainDBError as From<.*>>::from'] = lib.ident
     ex = Exec(mir, S, loop_bound=4, opaque_calls_ok=True, max_paths=4000)
     vf = mir.struct_fields('VersionChangeManifest')
+    def k_lock(ret, env, pc):
+        evs = env['$state']['events']
+        ok = isinstance(ret, Enum) and ret.tag == 'Ok'
+        touching = ('recover', 'new_wal', 'set_wal', 'log_and_apply', 'remove_obsolete_files', 'schedule_compaction')
+        posts = [('DB::open succeeds although the database lock could not be taken', Or(BoolVal(not ok), lock_ok)),
+                 ('DB::open recovers, writes or removes files of the database before it holds the database lock', BoolVal(all(evs.index('lock') < evs.index(x) for x in touching if x in evs) if 'lock' in evs else not any(x in evs for x in touching))),
+                 ('DB::open goes on (recovery, log creation, manifest edit, file removal) although the database lock could not be taken', Or(lock_ok, BoolVal(not any(x in evs for x in touching)))),
+                 ('DB::open does not request the database lock on a path that reaches recovery', BoolVal('lock' in evs or 'recover' not in evs))]
+        res.cases[('Ok ' if ok else 'Err ') + ','.join(evs)] = 1
+        for label, post, m in ex.check_posts(posts, pc):
+            rep = 'although the database lock could not be taken' in label or 'before it holds the database lock' in label
+            res.violations.append({'label': label, 'events': evs, 'replay': ['second_open'] if rep else None,
+                                   'confirmed_by': None if rep else {'reproduced': False, 'detail': 'no native scenario for this label'}})
     def k(ret, env, pc):
+        if variant == 'lock': return k_lock(ret, env, pc)
         evs = env['$state']['events']
         ok = isinstance(ret, Enum) and ret.tag == 'Ok'
         steps_ok = And(dirs_ok, worker_ok, lock_ok, rec_ok, Or(Not(wal_null), wal_ok), Or(Not(need_snapshot), apply_ok))
@@ -104,3 +118,18 @@ def o11_2_confirm(v, out):
     """Native: a closed database holds an orphan table file; a reopen that reuses log and manifest must remove it."""
     if out.get('_rc') != 0: return (False, 'native run failed: %s' % out.get('_stderr', '')[-300:])
     return ('999' in out.get('after', '').split(','), 'table files before the reopen: [%s], after: [%s]' % (out.get('before'), out.get('after')))
+
+
+def o17_1_open_lock(mir, tier):
+    """Same exploration of DB::open as O11.2; reference: the database lock is requested before recovery, before a write-ahead
+    log is created, before the manifest is edited and before any file is removed; if it cannot be taken, open fails and none of
+    these happened (flock itself is by contract: lock_file fails while another handle holds the lock)."""
+    return o11_2_db_open(mir, tier, variant='lock')
+
+
+def o17_1_confirm(v, out):
+    """Native: a database is open on the disk file system (real flock); a second DB::open of the same path must fail and the
+    first instance must keep working; destroy_database must refuse."""
+    if out.get('_rc') != 0: return (False, 'native run failed: %s' % out.get('_stderr', '')[-300:])
+    bad = out.get('second_open') == 'ok' or out.get('destroy_while_open') == 'ok' or out.get('first_still_works') != 'true' or out.get('files_changed_by_refused_open') == 'true' or out.get('files_changed_by_refused_destroy') == 'true'
+    return (bad, 'second open: %s (files changed by it: %s), destroy while open: %s (files changed by it: %s), first instance still works: %s' % (out.get('second_open'), out.get('files_changed_by_refused_open'), out.get('destroy_while_open'), out.get('files_changed_by_refused_destroy'), out.get('first_still_works')))
